@@ -123,8 +123,21 @@ pub fn check_learned_events(
     what: &str,
     events: Vec<verif_tap::Event>,
 ) {
+    // at most 20000 learned nogoods are checked per case (long enumerations of the larger models
+    // learn hundreds of thousands); the rest is counted
+    thread_local! { static BUDGET: std::cell::Cell<(u64, u32)> = const { std::cell::Cell::new((u64::MAX, 0)) }; }
     for ev in events {
         if let verif_tap::Event::Learned { predicates, .. } = ev {
+            let used = BUDGET.with(|b| {
+                let (idx, n) = b.get();
+                let n = if idx == cx.idx { n + 1 } else { 1 };
+                b.set((cx.idx, n));
+                n
+            });
+            if used > 20_000 {
+                cx.acc.count("learned_nogoods_beyond_the_per_case_cap", 1);
+                continue;
+            }
             cx.acc.count("learned_nogoods_checked", 1);
             let mut preds = vec![];
             let mut skip = false;
